@@ -14,6 +14,9 @@ import (
 	"rtpcheck/lin"
 )
 
+// MaxLen is the assumed bound on every slice/string length (stated in the evidence).
+const MaxLen = int64(1) << 40
+
 type frameInfo struct {
 	fn     *ssa.Function
 	parent frameID
@@ -36,23 +39,25 @@ type Oblig struct {
 }
 
 type interp struct {
-	prog     *core.Program
-	at       *atoms
-	K        int
-	maxDepth int
-	frames   map[string]frameID
-	finfo    []frameInfo
-	obls     map[string]*Oblig
-	oblOrder []string
-	record   bool
-	forests  map[*ssa.Function]*forest
-	nEntail  int
-	nFeas    int
-	funcs    map[*ssa.Function]bool
-	hooks    *Hooks
-	retStack [][]*disjunct
-	warnings []string
-	steps    int
+	prog      *core.Program
+	at        *atoms
+	K         int
+	maxDepth  int
+	frames    map[string]frameID
+	finfo     []frameInfo
+	obls      map[string]*Oblig
+	oblOrder  []string
+	record    bool
+	forests   map[*ssa.Function]*forest
+	nEntail   int
+	nFeas     int
+	funcs     map[*ssa.Function]bool
+	hooks     *Hooks
+	retStack  [][]*disjunct
+	warnings  []string
+	steps     int
+	loopMemo  map[string]*loopMemo
+	sentinels map[*ssa.Global]bool
 }
 
 // Hooks lets a property attach contracts.
@@ -66,7 +71,7 @@ type Hooks struct {
 
 func newInterp(prog *core.Program, K, depth int) *interp {
 	return &interp{prog: prog, at: newAtoms(), K: K, maxDepth: depth, frames: map[string]frameID{},
-		obls: map[string]*Oblig{}, forests: map[*ssa.Function]*forest{}, funcs: map[*ssa.Function]bool{}}
+		obls: map[string]*Oblig{}, forests: map[*ssa.Function]*forest{}, funcs: map[*ssa.Function]bool{}, loopMemo: map[string]*loopMemo{}, sentinels: map[*ssa.Global]bool{}}
 }
 
 func (it *interp) frameFor(parent frameID, site ssa.Instruction, fn *ssa.Function) frameID {
@@ -165,8 +170,8 @@ func (it *interp) valAtom(f frameID, v ssa.Value) *lin.Lin {
 func (it *interp) lenAtom(f frameID, v ssa.Value) (*lin.Lin, *lin.Lin) {
 	l := it.at.get(aLen, valKey{f, v}, fmt.Sprintf("len(%s@%d)", v.Name(), f))
 	c := it.at.get(aCap, valKey{f, v}, fmt.Sprintf("cap(%s@%d)", v.Name(), f))
-	it.at.setRange(l, 0, 0, true, false)
-	it.at.setRange(c, 0, 0, true, false)
+	it.at.setRange(l, 0, MaxLen, true, true)
+	it.at.setRange(c, 0, MaxLen, true, true)
 	return lin.Var(l), lin.Var(c)
 }
 
@@ -235,8 +240,10 @@ func (it *interp) repOf(d *disjunct, f frameID, v ssa.Value) rep {
 		return rep{kind: kPtr, isnil: lin.Const(0)}
 	case *ssa.Parameter:
 		r := it.freshRep(d, f, v, v.Type())
-		if r.kind == kPtr && len(x.Parent().Params) > 0 && x.Parent().Params[0] == x && x.Parent().Signature.Recv() != nil {
-			r.isnil = lin.Const(0) // receivers are assumed non-nil
+		if r.kind == kPtr {
+			if _, isPtr := x.Type().Underlying().(*types.Pointer); isPtr {
+				r.isnil = lin.Const(0) // receivers and pointer arguments of entry points are assumed non-nil
+			}
 		}
 		if r.kind == kPtr {
 			a := addr{root: valKey{f, x}}
@@ -424,8 +431,9 @@ func (it *interp) store(d *disjunct, f frameID, a addr, t types.Type, val rep, v
 			}
 			continue
 		}
-		// different root: may alias only if types are identical and neither root is a local allocation
-		if types.Identical(c.typ, t) && !isLocalRoot(c.a.root.v) && !isLocalRoot(a.root.v) {
+		// different root: may alias only if the types are identical and the two roots may denote
+		// the same object
+		if types.Identical(c.typ, t) && rootsMayAlias(c.a.root.v, a.root.v) {
 			delete(d.mem, mk)
 		}
 	}
@@ -470,6 +478,31 @@ func pathsMayOverlap(p, q string) bool {
 		return false
 	}
 	return strings.Contains(p, "[*]") || strings.Contains(q, "[*]")
+}
+
+// rootsMayAlias: two distinct root values may denote the same object. An allocation is a new
+// object: it is distinct from every other allocation and from anything that existed before it
+// (unbound parameters of the entry point, captured variables, globals). A pointer loaded from
+// unknown memory may point to an escaped (heap) allocation.
+func rootsMayAlias(x, y ssa.Value) bool {
+	ax, xa := x.(*ssa.Alloc)
+	ay, ya := y.(*ssa.Alloc)
+	old := func(v ssa.Value) bool {
+		switch v.(type) {
+		case *ssa.Parameter, *ssa.Global, *ssa.FreeVar:
+			return true
+		}
+		return false
+	}
+	switch {
+	case xa && ya:
+		return false
+	case xa:
+		return !old(y) && ax.Heap
+	case ya:
+		return !old(x) && ay.Heap
+	}
+	return true
 }
 
 func isLocalRoot(v ssa.Value) bool {
